@@ -35,6 +35,8 @@ def main():
             env = dict(os.environ, VERIF_REPO=wt)
             r = subprocess.run([os.path.join(HERE, "check"), p], env=env, stdout=subprocess.PIPE, stderr=subprocess.STDOUT, text=True, cwd=HERE)
             viol = [l for l in r.stdout.split("\n") if l.startswith("VIOLATION") or l.startswith("KNOWN-FINDING")]
+            # concrete replays first, known findings last (only the first 12 lines are kept)
+            viol.sort(key=lambda l: (l.startswith("KNOWN-FINDING"), "no-failing-input-found" in l))
             res[p] = {"rc": r.returncode, "lines": viol[:12]}
             print(p, "rc=%d" % r.returncode)
             for l in viol[:12]:
